@@ -327,7 +327,29 @@ def shard_params(col, shard_i):
             continue
         want_params = list(m.rules[0].params)
         want_kw = sorted(m.rules[0].kwparams.items())
-        for sem in (Star, Named1 if len(params) <= 1 else Named2):
+        # the action may be any callable: a bound method, a functools.partial, an object with __call__, a lambda stored on the instance
+        import functools
+
+        def _impl(ast, *params_, **kw_):
+            return ('$tag', 'start', [ast, list(params_), sorted((k_, v_) for k_, v_ in kw_.items() if k_ != 'parseinfo')])
+
+        class Partial:
+            def __init__(self):
+                self.start = functools.partial(_impl)
+
+        class CallableObject:
+            class _Act:
+                def __call__(self, ast, *params_, **kw_):
+                    return _impl(ast, *params_, **kw_)
+
+            def __init__(self):
+                self.start = self._Act()
+
+        class Lambda:
+            def __init__(self):
+                self.start = lambda ast, *a_, **k_: _impl(ast, *a_, **k_)
+
+        for sem in (Star, Named1 if len(params) <= 1 else Named2, Partial, CallableObject, Lambda):
             for back, run in (('model', lambda: m.parse('x', semantics=sem())), ('generated', lambda: gp().parse('x', semantics=sem()))):
                 col.case(['params', g, sem.__name__, back], nontrivial=True)
                 col.count('params.compared')
